@@ -58,6 +58,30 @@
 (*   ImageWellFormed, LinksResolve, StringsAgree, NoDup   sanity of the    *)
 (*                      generated container                                *)
 (*                                                                         *)
+(* Client sessions (strengthening round).  The property's answers are      *)
+(* functions of the section alone, so they must not depend on what the     *)
+(* same section object was asked before.  After the walk a client picks    *)
+(* ONE section object (kind "def" or "need") and issues a sequence of      *)
+(* public calls on it, one action (ClientCall) per call, the expected      *)
+(* answer being logged with the call:                                      *)
+(*   get(q)  index resolution      has   has_indexes (requirements)        *)
+(*   num     number of entries     all   a complete nested iteration       *)
+(*   open    start an iteration (a previously open one is abandoned)       *)
+(*   step / peek   advance the open iteration by one entry and consume its *)
+(*           whole auxiliary chain / only its first auxiliary              *)
+(* Discipline "free": every sequence of MaxCalls calls over the alphabet   *)
+(* FreeLetters (small objects only, FreeOK); the scripted disciplines run  *)
+(* on every object whose placement is in SessPatterns: "updown" (carried   *)
+(* indices ascending, absent ones, has/num, a full iteration, carried      *)
+(* indices descending), "downup" (the mirror image) and "weave" (look-ups  *)
+(* alternating with the steps of one open iteration, past its end).        *)
+(* Checked on the specification: SessionAnswers (the logged answer of a    *)
+(* call is what a walk of the bytes started afresh yields, whatever        *)
+(* preceded), IterInOrder (an iteration yields entries 1..n in link order, *)
+(* then stays exhausted, undisturbed by calls in between), SessionFrame    *)
+(* (calls do not change the object).  Every finished session is emitted    *)
+(* and replayed on one fresh section object.                               *)
+(*                                                                         *)
 (* Not asserted (the standard does not fix it / outside the quantifier):   *)
 (* Version.name of a definition entry (names live in the auxiliaries);     *)
 (* two entries carrying the same index (excluded, NoDup); look-up of index *)
@@ -81,7 +105,11 @@ CONSTANTS Modes,        \* subset of {"chains", "versym"}
           SmallEntries, SmallAux,   \* ... and for all the others
           BigCombos,
           NeedMode,     \* "rev": requirement shape = reversed definition shape; "free": every shape in bounds
-          VsLens        \* versym table lengths explored in mode "versym"
+          VsLens,       \* versym table lengths explored in mode "versym"
+          Disciplines,  \* client sessions: subset of {"free", "updown", "downup", "weave"}
+          SessPatterns, \* ... on objects with these placement patterns
+          MaxCalls,     \* length of the "free" sessions
+          FreeCombos, FreeIAs   \* "free" sessions: <<class, little-endian, container>> combinations and index assignments
 
 VARIABLES phase,        \* "build" -> "walk" -> "done"
           ch,           \* the writer's choices so far
@@ -89,8 +117,9 @@ VARIABLES phase,        \* "build" -> "walk" -> "done"
           img,          \* its bytes, per section
           exp,          \* the view of the finished object
           sec,          \* section the reader is in: "def" -> "need" -> "sym"
-          wk            \* reader machine state
-vars == <<phase, ch, obj, img, exp, sec, wk>>
+          wk,           \* reader machine state
+          sess            \* client session: [kind, disc, log of answered calls, it (entries the open iteration has yielded; -1: none open)]
+vars == <<phase, ch, obj, img, exp, sec, wk, sess>>
 
 (* ------------------------------ layouts -------------------------------- *)
 \* LSB Core, Symbol Versioning, figures "Version Definition Entries", "Version Definition Auxiliary
@@ -424,8 +453,9 @@ Bare(v) == [k \in 1..Len(v) |-> [e |-> v[k].e, auxes |-> [j \in 1..Len(v[k].auxe
 
 (* ------------------------------- writer -------------------------------- *)
 ClsLe == {<<32, TRUE>>, <<32, FALSE>>, <<64, TRUE>>, <<64, FALSE>>}
+NoSess == [kind |-> "none", disc |-> "none", log |-> <<>>, it |-> -1]
 Init ==
-  /\ phase = "build" /\ obj = <<>> /\ img = <<>> /\ exp = <<>> /\ sec = "none" /\ wk = <<>>
+  /\ phase = "build" /\ obj = <<>> /\ img = <<>> /\ exp = <<>> /\ sec = "none" /\ wk = <<>> /\ sess = NoSess
   /\ \E cl \in ClsLe, m \in Modes, ct \in Containers :
        \/ m = "chains" /\ \E p \in Patterns, ia \in IAs :
             ch = [cls |-> cl[1], le |-> cl[2], mode |-> m, pattern |-> p, ia |-> ia, cont |-> ct, dsh |-> <<>>]
@@ -439,11 +469,11 @@ QuickBig == {<<64, TRUE, "plain">>, <<32, FALSE, "decoy">>}
 AddEntry ==
   /\ phase = "build" /\ ch.mode = "chains" /\ Len(ch.dsh) < EntriesBound(ch)
   /\ ch' = [ch EXCEPT !.dsh = Append(@, 1)]
-  /\ UNCHANGED <<phase, obj, img, exp, sec, wk>>
+  /\ UNCHANGED <<phase, obj, img, exp, sec, wk, sess>>
 AddAux ==
   /\ phase = "build" /\ ch.mode = "chains" /\ ch.dsh # <<>> /\ ch.dsh[Len(ch.dsh)] < AuxBound(ch)
   /\ ch' = [ch EXCEPT !.dsh[Len(ch.dsh)] = @ + 1]
-  /\ UNCHANGED <<phase, obj, img, exp, sec, wk>>
+  /\ UNCHANGED <<phase, obj, img, exp, sec, wk, sess>>
 
 AllShapes == UNION {[1..n -> 1..SmallAux] : n \in 0..SmallEntries}
 NeedShapes(c) == IF c.mode = "versym" THEN {<<2>>} ELSE IF NeedMode = "rev" THEN {Rev(c.dsh)} ELSE AllShapes
@@ -459,33 +489,88 @@ Finish ==
        IN /\ obj' = o /\ img' = g /\ exp' = VerView(o)
           /\ sec' = "def" /\ wk' = W0(CxOf(g, o.le, "def"))
   /\ phase' = "walk"
-  /\ UNCHANGED ch
+  /\ UNCHANGED <<ch, sess>>
 
 (* ------------------------------- reader -------------------------------- *)
 InChain == phase = "walk" /\ sec \in {"def", "need"}
 ReadEntry == /\ InChain /\ wk.pc = "entry" /\ EntryFits(ChainCx(sec), wk)
-             /\ wk' = DoReadEntry(ChainCx(sec), wk) /\ UNCHANGED <<phase, ch, obj, img, exp, sec>>
+             /\ wk' = DoReadEntry(ChainCx(sec), wk) /\ UNCHANGED <<phase, ch, obj, img, exp, sec, sess>>
 ReadAux == /\ InChain /\ wk.pc = "aux" /\ AuxFits(ChainCx(sec), wk)
-           /\ wk' = DoReadAux(ChainCx(sec), wk) /\ UNCHANGED <<phase, ch, obj, img, exp, sec>>
+           /\ wk' = DoReadAux(ChainCx(sec), wk) /\ UNCHANGED <<phase, ch, obj, img, exp, sec, sess>>
 FollowAuxNext == /\ InChain /\ wk.pc = "auxnext"
-                 /\ wk' = DoFollowAux(wk) /\ UNCHANGED <<phase, ch, obj, img, exp, sec>>
+                 /\ wk' = DoFollowAux(wk) /\ UNCHANGED <<phase, ch, obj, img, exp, sec, sess>>
 AbandonAux == /\ InChain /\ wk.pc \in {"aux", "auxnext"}
-              /\ wk' = DoAbandon(wk) /\ UNCHANGED <<phase, ch, obj, img, exp, sec>>
+              /\ wk' = DoAbandon(wk) /\ UNCHANGED <<phase, ch, obj, img, exp, sec, sess>>
 FollowNext == /\ InChain /\ wk.pc = "next"
-              /\ wk' = DoFollowNext(ChainCx(sec), wk) /\ UNCHANGED <<phase, ch, obj, img, exp, sec>>
+              /\ wk' = DoFollowNext(ChainCx(sec), wk) /\ UNCHANGED <<phase, ch, obj, img, exp, sec, sess>>
 NextSection == /\ InChain /\ wk.pc = "end"
                /\ IF sec = "def" THEN sec' = "need" /\ wk' = W0(ChainCx("need"))
                                  ELSE sec' = "sym" /\ wk' = [i |-> 0, cur |-> <<>>]
-               /\ UNCHANGED <<phase, ch, obj, img, exp>>
+               /\ UNCHANGED <<phase, ch, obj, img, exp, sess>>
 SymEnt == SizeOf(SymF(obj.cls), obj.cls)
 ReadSym == /\ phase = "walk" /\ sec = "sym" /\ wk.i < SymCount(img.vs)
            /\ wk' = [i |-> wk.i + 1, cur |-> SymAt(img.vs, img.sym, SymEnt, img.str, obj.le, wk.i)]
-           /\ UNCHANGED <<phase, ch, obj, img, exp, sec>>
+           /\ UNCHANGED <<phase, ch, obj, img, exp, sec, sess>>
 EndWalk == /\ phase = "walk" /\ sec = "sym" /\ wk.i = SymCount(img.vs)
-           /\ phase' = "done" /\ UNCHANGED <<ch, obj, img, exp, sec, wk>>
+           /\ phase' = "done" /\ UNCHANGED <<ch, obj, img, exp, sec, wk, sess>>
 
 WalkNext == ReadEntry \/ ReadAux \/ FollowAuxNext \/ AbandonAux \/ FollowNext \/ NextSection \/ ReadSym \/ EndWalk
-Next == AddEntry \/ AddAux \/ Finish \/ WalkNext
+
+(* --------------------------- client sessions --------------------------- *)
+Count(kind) == Len(obj[kind])
+Carried(kind) == IF kind = "def" THEN DefCarried(obj) ELSE NeedCarried(obj) \ {0}
+AllQueries(kind) == IF kind = "def" THEN DefQueries(obj) ELSE NeedQueries(obj)
+FreeQueries(kind) == LET car == Carried(kind) IN car \cup (IF car = {} THEN {} ELSE {Flip(Min(car))}) \cup {7}
+RECURSIVE Asc(_)
+Asc(S) == IF S = {} THEN <<>> ELSE LET m == Min(S) IN <<m>> \o Asc(S \ {m})
+Letter(op, q) == [op |-> op, q |-> q]
+Gets(qs) == [i \in 1..Len(qs) |-> Letter("get", qs[i])]
+FreeLetters(kind, it) ==
+  {Letter("get", q) : q \in FreeQueries(kind)}
+  \cup {Letter(o, 0) : o \in {"num", "all", "open"} \cup (IF kind = "need" THEN {"has"} ELSE {})}
+  \cup (IF it >= 0 THEN {Letter("step", 0), Letter("peek", 0)} ELSE {})
+Script(kind, disc) ==
+  LET up == Asc(Carried(kind))
+      absent == Asc(AllQueries(kind) \ Carried(kind))
+      mid == <<Letter(IF kind = "need" THEN "has" ELSE "num", 0), Letter("all", 0)>>
+      qs == up \o absent
+      n == Max({Len(qs), Count(kind) + 2})
+  IN CASE disc = "updown" -> Gets(up) \o Gets(absent) \o mid \o Gets(Rev(up))
+       [] disc = "downup" -> Gets(Rev(up)) \o mid \o Gets(absent) \o Gets(up)
+       [] disc = "weave" -> <<Letter("open", 0)>>
+                            \o Flat([i \in 1..n |-> (IF i <= Len(qs) THEN <<Letter("get", qs[i])>> ELSE <<>>)
+                                                   \o (IF i <= Count(kind) + 2 THEN <<Letter(IF (i % 2) = 1 THEN "step" ELSE "peek", 0)>> ELSE <<>>)])
+\* the answer the property fixes for a call, as <<k, j>>: the entry / auxiliary carrying the index (0: none), a flag, a count
+Call(op, q, k, j) == [op |-> op, q |-> q, k |-> k, j |-> j]
+Answer(kind, l, it) ==
+  CASE l.op = "get" -> (IF kind = "def" THEN Call("get", l.q, DefByIndex(obj, l.q), 0)
+                        ELSE LET r == NeedByIndex(obj, l.q) IN Call("get", l.q, r[1], r[2]))
+    [] l.op = "has" -> Call("has", 0, IF HasIndexes(obj) THEN 1 ELSE 0, 0)
+    [] l.op \in {"num", "all"} -> Call(l.op, 0, Count(kind), 0)
+    [] l.op = "open" -> Call("open", 0, 0, 0)
+    [] l.op \in {"step", "peek"} -> IF it < Count(kind)
+                                    THEN Call(l.op, 0, it + 1, IF l.op = "step" THEN Len(obj[kind][it + 1].auxes) ELSE 1)
+                                    ELSE Call(l.op, 0, 0, 0)
+NextIt(kind, l, it) == CASE l.op = "open" -> 0
+                         [] l.op \in {"step", "peek"} -> IF it < Count(kind) THEN it + 1 ELSE it
+                         [] OTHER -> it
+SmallShape(entries) == Len(entries) <= SmallEntries /\ \A k \in 1..Len(entries) : Len(entries[k].auxes) <= SmallAux
+FreeOK == /\ MaxCalls > 0 /\ <<obj.cls, obj.le, obj.cont>> \in FreeCombos /\ obj.ia \in FreeIAs
+          /\ SmallShape(obj.def) /\ SmallShape(obj.need)
+StartSession(kind, disc) ==
+  /\ phase = "done" /\ obj.mode = "chains" /\ obj.pattern \in SessPatterns
+  /\ (disc = "free" => FreeOK)
+  /\ sess' = [kind |-> kind, disc |-> disc, log |-> <<>>, it |-> -1]
+  /\ phase' = "sess" /\ UNCHANGED <<ch, obj, img, exp, sec, wk>>
+SessLen == IF sess.disc = "free" THEN MaxCalls ELSE Len(Script(sess.kind, sess.disc))
+ClientCall ==
+  /\ phase = "sess" /\ Len(sess.log) < SessLen
+  /\ \E l \in (IF sess.disc = "free" THEN FreeLetters(sess.kind, sess.it) ELSE {Script(sess.kind, sess.disc)[Len(sess.log) + 1]}) :
+       sess' = [sess EXCEPT !.log = Append(@, Answer(sess.kind, l, sess.it)), !.it = NextIt(sess.kind, l, sess.it)]
+  /\ UNCHANGED <<phase, ch, obj, img, exp, sec, wk>>
+SessNext == (\E kind \in {"def", "need"}, disc \in Disciplines : StartSession(kind, disc)) \/ ClientCall
+
+Next == AddEntry \/ AddAux \/ Finish \/ WalkNext \/ SessNext
 Spec == Init /\ [][Next]_vars
 
 (* ------------------------------ emission ------------------------------- *)
@@ -514,12 +599,17 @@ CaseParts ==
         [t |-> "def", v |-> exp.def], [t |-> "need", v |-> exp.need] >>
      \o [i \in 1..Len(pcs) |-> [t |-> "chunk", v |-> pcs[i]]]
      \o [i \in 1..Len(vss) |-> [t |-> "versym", v |-> vss[i]]]
+\* a finished session is one more line of its object's case (n = 0: not counted among the case's parts)
+SessLine == [k |-> CaseKey, n |-> 0, i |-> 0, t |-> "sess",
+             v |-> [kind |-> sess.kind, disc |-> sess.disc,
+                    log |-> [i \in 1..Len(sess.log) |-> <<sess.log[i].op, sess.log[i].q, sess.log[i].k, sess.log[i].j>>]]]
 Emit ==
-  phase = "done" =>
-    LET parts == CaseParts
-        key == CaseKey
-    IN \A i \in 1..Len(parts) :
-         CSVWrite("%1$s", <<ToJson([k |-> key, n |-> Len(parts), i |-> i, t |-> parts[i].t, v |-> parts[i].v])>>, IOEnv.OUT)
+  /\ phase = "done" =>
+       LET parts == CaseParts
+           key == CaseKey
+       IN \A i \in 1..Len(parts) :
+            CSVWrite("%1$s", <<ToJson([k |-> key, n |-> Len(parts), i |-> i, t |-> parts[i].t, v |-> parts[i].v])>>, IOEnv.OUT)
+  /\ (phase = "sess" /\ Len(sess.log) = SessLen => CSVWrite("%1$s", <<ToJson(SessLine)>>, IOEnv.OUT))
 
 (* ------------------------------ properties ----------------------------- *)
 Walking == phase \in {"walk", "done"}
@@ -619,4 +709,27 @@ WalkGuard ==
          \/ wk.pc = "aux" /\ AuxFits(ChainCx(sec), wk)
          \/ wk.pc \in {"auxnext", "next", "end"}
 NeverStuck == phase = "walk" => ENABLED WalkNext
+
+\* sessions.  The answer logged for the latest call is what a walk of the section's bytes started afresh yields,
+\* whatever calls preceded it on the same object (by induction over the log: every call of every session)
+FreshFind(kind, q) == IF kind = "def" THEN <<FindDef(LookupCx("def"), W0(LookupCx("def")), q), 0>>
+                      ELSE FindNeed(LookupCx("need"), W0(LookupCx("need")), q)
+SessionAnswers ==
+  phase = "sess" /\ sess.log # <<>> =>
+    LET c == sess.log[Len(sess.log)] IN
+    CASE c.op = "get" -> FreshFind(sess.kind, c.q) = <<c.k, c.j>>
+      [] c.op = "has" -> (c.k = 1) <=> (FindNeed(LookupCx("need"), W0(LookupCx("need")), -1) # <<0, 0>>)
+      [] c.op \in {"num", "all"} -> c.k = img.count[sess.kind] /\ c.k = Len(exp[sess.kind])
+      [] OTHER -> TRUE
+\* an iteration yields the entries in link order, each once, then stays exhausted - whatever is called in between
+LastOpen(log) == Max({0} \cup {i \in 1..Len(log) : log[i].op = "open"})
+StepsAfterOpen(log) == SelectSeq(SubSeq(log, LastOpen(log) + 1, Len(log)), LAMBDA c : c.op \in {"step", "peek"})
+IterInOrder ==
+  phase = "sess" =>
+    /\ (\A i \in 1..Len(sess.log) : sess.log[i].op \in {"step", "peek"} => LastOpen(SubSeq(sess.log, 1, i)) > 0)
+    /\ LET st == StepsAfterOpen(sess.log) IN
+       \A i \in 1..Len(st) : IF i <= Count(sess.kind)
+                              THEN st[i].k = i /\ st[i].j = (IF st[i].op = "step" THEN Len(exp[sess.kind][i].auxes) ELSE 1)
+                              ELSE st[i].k = 0
+SessionFrame == [][phase = "sess" => phase' = "sess" /\ UNCHANGED <<ch, obj, img, exp, sec, wk>> /\ Len(sess'.log) = Len(sess.log) + 1]_vars
 =============================================================================
